@@ -147,4 +147,19 @@ def windows {α : Type} (w : Nat) (xs : List α) : List (List α) :=
 def slidingBlocks {α : Type} (w : Nat) (blocks : List (List α)) : List (List (List α)) :=
   (overlapBlocks 0 (w - 1) blocks).map (windows w)
 
+/-! ### `map_overlap`: which argument's depth and boundary drive the trim -/
+
+/-- the sort key `(v[1].ndim, -v[0])` compared: `keyLt a b` ⇔ key(a) < key(b), for pairs (index, ndim) -/
+def keyLt (a b : Nat × Nat) : Bool := decide (a.2 < b.2) || (decide (a.2 = b.2) && decide (b.1 < a.1))
+
+/-- `sorted(enumerate(args), key=lambda v: (v[1].ndim, -v[0]))[-1][0]`: the last element of the sorted list is the
+    maximum of the key (the keys are pairwise distinct); computed as a running maximum over `enumerate(args)` -/
+def trimArgFrom : Nat → Option (Nat × Nat) → List Nat → Option (Nat × Nat)
+  | _, best, [] => best
+  | i, none, r :: rest => trimArgFrom (i + 1) (some (i, r)) rest
+  | i, some b, r :: rest => trimArgFrom (i + 1) (if keyLt b (i, r) then some (i, r) else some b) rest
+
+/-- index of the argument whose depth/boundary are used by `trim_internal`; `none` = no array argument (IndexError) -/
+def trimArg (ranks : List Nat) : Option Nat := (trimArgFrom 0 none ranks).map (·.1)
+
 end Dask.ArrOverlap
